@@ -8,7 +8,7 @@ P=$(readlink -f "$1"); shift
 T=$(mktemp -d /tmp/pmut.XXXXXX)
 git -C /repo worktree add -q --detach $T/repo HEAD || { echo "cannot add worktree"; exit 2; }
 trap 'git -C /repo worktree remove --force $T/repo 2>/dev/null; rm -rf $T' EXIT
-if ! git -C $T/repo apply "$P"; then echo "mutant=$(basename $(dirname $P))/$(basename $P) patch does not apply"; exit 2; fi
+if ! git -C $T/repo apply --3way "$P" >/dev/null 2>&1; then echo "mutant=$(basename $(dirname $P))/$(basename $P) patch does not apply"; exit 2; fi   # --3way: merge against the blobs the patch names, so that a shifted context cannot land the hunk in a look-alike site
 # build and output directories live under /verif/.build (C18 runs with a private tmpfs on /tmp)
 W=/verif/.build/pmut-$(basename $T)
 trap 'git -C /repo worktree remove --force $T/repo 2>/dev/null; rm -rf $T $W' EXIT
